@@ -208,14 +208,22 @@ Section Heap.
 End Heap.
 
 (** * Jobs and the comparator chain *)
+(** v2alpha2.Preemptibility: "" (not set), "preemptible", "non-preemptible" *)
+Inductive preemptibility := PUnset | PPreemptible | PNonPreemptible.
+
 Record job := {
   j_uid : Z;
   j_queue : Z;
   j_prio : Z;
   j_subgroups : list (Z * Z);  (* per pod set: (active allocated tasks, minAvailable) *)
   j_ctime : Z;                 (* creation timestamp *)
-  j_shape : Z;                 (* class of identical pod template / gang shape / preemptibility;
+  j_shape : Z;                 (* class of identical pod template / gang shape;
                                   not read by any ordering function *)
+  j_pre : preemptibility;      (* PodGroupInfo.Preemptibility: what the snapshot resolved from the pod group's
+                                  spec.preemptibility and its priority (CalculatePreemptibility);
+                                  not read by any ordering function, read by the capacity gate (Model/QuotaGate.v) *)
+  j_req : list Z;              (* what the tasks to allocate ask for, per resource of rs.AllResources
+                                  (cpu, memory, gpu), in thousandths; read by the capacity gate only *)
 }.
 
 (** priority.JobOrderFn *)
